@@ -70,9 +70,17 @@ def main():
         results = meta.setdefault("results", {})
         extra = ["--examples", flags["--examples"]] if "--examples" in flags else []
         tier = flags.get("--tier", "quick")
+        vseed = flags.get("--seed")
         for p in props:
+            env = dict(os.environ, VERIF_REPO=repo)
+            if vseed:
+                env["VERIF_SEED"] = str(vseed)
             rr = subprocess.run([os.path.join(vcopy, "run.py"), p, "--tier", tier, "--no-shrink"] + extra, cwd=vcopy,
-                                env=dict(os.environ, VERIF_REPO=repo), capture_output=True, text=True)
+                                env=env, capture_output=True, text=True)
+            if vseed:
+                # reliability of detection across VERIF_SEED values: recorded separately, the main table keeps seed 1
+                meta.setdefault("by_seed", {}).setdefault(str(vseed), {})[p] = rr.returncode
+                continue
             sigs = [l.strip()[len("signature="):] for l in rr.stdout.splitlines() if l.strip().startswith("signature=")]
             results[p] = {"exit": rr.returncode, "tier": tier, "signatures": sigs[:5]}
             if rr.returncode == 2:
